@@ -114,7 +114,7 @@ def run():
     return write_gen("PyTmpl.v", text, [SOURCE])
 
 
-def module_names(template):
+def scan_names(template):
     """Obligations on the module's name space (fail closed) and the list of reserved bare names.
       * the star import of the controller module is the FIRST import: whatever the template imports afterwards re-binds its
         own names, so a controller name (an event class) can never replace a library name the machine relies on;
@@ -127,21 +127,24 @@ def module_names(template):
         if re.fullmatch(r"\s*<<<PER_\w+_(BEGIN|END)>>>\s*", line):
             continue
         detag.append(re.sub(r"<<<(\w+)(=[^<>]*)?>>>", lambda m: "TAG_" + m.group(1), line))
+    problems = []
     try:
         mod = ast.parse("\n".join(detag))
     except SyntaxError as e:
-        raise Refuse("template does not parse after removing the tags: %s" % e)
+        return [], [], ["template does not parse after removing the tags: %s" % e]
     imports = [n for n in mod.body if isinstance(n, (ast.Import, ast.ImportFrom))]
     if any(isinstance(n, (ast.Import, ast.ImportFrom)) for n in ast.walk(mod) if n not in imports):
-        raise Refuse("import statement below module level")
+        problems.append("import statement below module level")
     if not imports or not (isinstance(imports[0], ast.ImportFrom) and imports[0].module == "TAG_STATEMACHINENAMEController"
                            and [a.name for a in imports[0].names] == ["*"]):
-        raise Refuse("the star import of the controller module is not the first import of the template: a controller name "
-                     "(event class) could replace a name imported before it")
+        problems.append("the star import of the controller module is not the first import of the template: a controller name "
+                        "(event class) could replace a name imported before it")
     bound = []
-    for n in imports[1:]:
+    for n in imports:
         if isinstance(n, ast.ImportFrom) and any(a.name == "*" for a in n.names):
-            raise Refuse("second star import")
+            if n.module != "TAG_STATEMACHINENAMEController":
+                problems.append("star import of " + str(n.module))
+            continue
         for a in n.names:
             bound.append(a.asname or a.name.split(".")[0])
     suffixes = []
@@ -152,7 +155,7 @@ def module_names(template):
             else:
                 bound.append(n.name)
         elif isinstance(n, (ast.FunctionDef, ast.Assign)):
-            raise Refuse("module-level definition of unknown kind at line %d" % n.lineno)
+            problems.append("module-level definition of unknown kind at line %d" % n.lineno)
     local = {"self", "event", "controller"}
     loaded = []
     for fn in ast.walk(mod):
@@ -167,7 +170,17 @@ def module_names(template):
                 continue
             if n.id not in loaded:
                 loaded.append(n.id)
-    return sorted(set(bound + loaded)), sorted(suffixes)
+    return sorted(set(bound + loaded)), sorted(suffixes), problems
+
+
+
+
+
+def module_names(template):
+    reserved, suffixes, problems = scan_names(template)
+    if problems:
+        raise Refuse("; ".join(problems))
+    return reserved, suffixes
 
 
 if __name__ == "__main__":
